@@ -361,6 +361,10 @@ func Recipes() []Recipe {
 		{Name: "cert:absent(V1,V2)+reward(A4 1%)", Build: func(x *Ctx) Built {
 			return Built{Absent: []int{KV1, KV2}, Percents: []PP{{string(addrOf(KA4)), 1, OwnChain}}}
 		}},
+		{Name: "send-beyond-balance(A7->A4 balance+5)", Build: func(x *Ctx) Built {
+			// fails for lack of funds unless A7 is the configured faucet, which then mints exactly the missing 5+fee
+			return Built{Txs: []*TxMeta{x.send("balance+5", KA7, KA4, x.bal(KA7)+5)}}
+		}},
 		{Name: "send-vesting(A4->A6 fee over 2 blocks)", Build: func(x *Ctx) Built {
 			return Built{Txs: []*TxMeta{x.tx("vesting send A4->A6", KA4, &fsm.MessageSend{FromAddress: addrOf(KA4), ToAddress: addrOf(KA6), Amount: x.W.Fee,
 				VestingStartHeight: x.H, VestingCliffHeight: x.H, VestingEndHeight: x.H + 2}, x.W.Fee)}}
